@@ -153,6 +153,7 @@ pub fn stages(id: &str) -> Vec<Stage> {
             st(C13 { params: Params::conflict_heavy().with_soft(2, 100), stage: "main" }, 10_000, 400_000, Release),
             st(C13 { params: Params::default().hint_heavy().with_soft(2, 100), stage: "rich" }, 5_000, 200_000, Release),
             st(C13 { params: Params::deep_conflict().with_soft(2, 100), stage: "deep" }, 3_000, 100_000, Release),
+            st(C13 { params: Params { min_pkgs: 100, max_pkgs: 170, max_cands: 3, max_reqs: 2, max_constrains: 1, min_root_reqs: 8, max_root_reqs: 40, tail_random: true, ..Params::default() }, stage: "wide" }, 100, 2_000, Release),
         ],
         "C14" => vec![
             st(C14 { params: Params::conflict_heavy().with_soft(5, 200), stage: "general", conflict_free: false }, 15_000, 600_000, Release),
